@@ -21,6 +21,9 @@
 package compile
 
 import (
+	"fmt"
+	"math"
+
 	"go.uber.org/thriftrw/ast"
 	"go.uber.org/thriftrw/wire"
 )
@@ -61,6 +64,16 @@ func compileEnum(file string, src *ast.Enum) (*EnumSpec, error) {
 			value = *astItem.Value
 		}
 		prev = value
+
+		if value < math.MinInt32 || value > math.MaxInt32 {
+			return nil, compileError{
+				Target: src.Name + "." + astItem.Name,
+				Line:   astItem.Line,
+				Reason: fmt.Errorf(
+					"enum value %v is out of bounds: "+
+						"enum values must fit in a 32-bit integer", value),
+			}
+		}
 
 		itemAnnotations, err := compileAnnotations(astItem.Annotations)
 		if err != nil {
